@@ -71,6 +71,7 @@ type NodeRT struct {
 	BlockHandler chan struct{} // if non-nil every callback blocks on it
 	EventBeforeReady bool
 	FeedFull         bool // (publisher nodes) the feeding subscription's buffer was observed full
+	mirrorDead       bool // the mirror was given up (overflow): never re-seed
 	WasFull          bool // the subscription's buffer was observed full: it may legitimately have lost events
 }
 
@@ -333,12 +334,10 @@ func (h *H) reader(n *NodeRT) {
 	sub := n.Sub
 	select {
 	case <-sub.Ready():
-		cands := n.filterCands(nil)
-		if list, err := sub.Cache().List(); err == nil {
-			n.Mirror = NewMirror(n.Name(), specsOf(list))
-			n.SeedStep = detsim.Steps()
-			cands = n.filterCands(cands)
-			if h.StaticAtReady {
+		if h.StaticAtReady {
+			cands := n.filterCands(nil)
+			if list, err := sub.Cache().List(); err == nil {
+				cands = n.filterCands(cands)
 				h.checkSyncedAtReady(n, specsOf(list), cands)
 			}
 		}
@@ -371,6 +370,7 @@ func (h *H) record(n *NodeRT, ev kcache.Event) {
 		h.MaxSeenVer = v
 	}
 	if h.Overflow || n.WasFull {
+		n.mirrorDead = true
 		n.Mirror = nil // gaps are legitimate from now on; strict replay is meaningless
 	}
 	if n.Mirror != nil {
@@ -589,6 +589,7 @@ func (h *H) alive(n *NodeRT) bool {
 // equals its filter applied to its parent's cache, every plain node equals its
 // parent, and every mirror equals the cache it replays.
 func (h *H) CheckTree(prefix string) {
+	h.SeedMirrors()
 	for _, n := range h.Nodes {
 		if n.Mon != nil || !h.alive(n) {
 			continue
@@ -617,6 +618,31 @@ func (h *H) CheckTree(prefix string) {
 			if !SameIDs(m, got) {
 				detsim.Fail(prefix+"mirror-diverged", "%s: replaying its events does not give its cache\n  mirror: %v\n  cache : %v\n  events: %s", n.Name(), m, got, sigs(n.Events))
 			}
+		}
+	}
+}
+
+// SeedMirrors must be called at a quiescent point (after Settle, under
+// HoldTime): no event is in flight anywhere, so the cache content read now is
+// exactly the state the rest of the subscriber's event stream starts from.
+// From here on the mirror replays strictly, with no overlap tolerance.  (A
+// seed taken at an arbitrary instant cannot be aligned with the stream: with a
+// slow list the cache may even move to an older object version, 11.4 item 17.)
+func (h *H) SeedMirrors() {
+	for _, n := range h.Nodes {
+		if n.Sub == nil || n.Mon != nil || n.Mirror != nil || n.mirrorDead || (n.Reader != "eager" && n.Reader != "slow") {
+			continue
+		}
+		if h.Overflow || n.WasFull || h.upstreamFull(n) || len(n.Sub.Events()) != 0 {
+			continue
+		}
+		if !detsim.IsClosed(n.Sub.Ready()) || detsim.IsClosed(n.Sub.Done()) {
+			continue
+		}
+		if list, err := n.Sub.Cache().List(); err == nil {
+			n.Mirror = NewMirror(n.Name(), specsOf(list))
+			n.Mirror.Strict = true
+			n.SeedStep = detsim.Steps()
 		}
 	}
 }
